@@ -148,6 +148,19 @@ def run(rep):
         wbx = {"sheets": [{"name": "survey", "header": ["type", "name", "label", "bind::foo:a"], "rows": [["text", "q1", "Q1", "v" if ns.startswith("foo=") else None]]},
                           {"name": "settings", "header": ["namespaces"], "rows": [[ns]]}]}
         jobs.append({"wb": wbx, "fmt": "dict", "parts": ("c01",), "tag": {"namespaces_value": i}})
+    # a namespace declared by an attribute written on some element (xmlns:foo through attribute:: / instance:: / bind:: / body::) is in scope
+    # below that element only; the prefix is used on the same row, on another row, in the model and in the body
+    for di, decl in enumerate(("attribute::xmlns:foo", "instance::xmlns:foo", "bind::xmlns:foo", "body::xmlns:foo")):
+        for ui, (use, row) in enumerate((("bind::foo:bar", 0), ("body::foo:widget", 0), ("instance::foo:x", 0), ("instance::foo:x", 1), ("bind::foo:bar", 1), ("body::foo:widget", 1))):
+            hdr = ["type", "name", "label", use] + ([decl] if not decl.startswith("attribute::") else [])
+            rows = [["text", "q1", "Q1", None] + ([None] if len(hdr) > 4 else []), ["text", "q2", "Q2", None] + ([None] if len(hdr) > 4 else [])]
+            rows[row][3] = "v"
+            if len(hdr) > 4:
+                rows[0][4] = "http://example.com/foo"
+            sheets = [{"name": "survey", "header": hdr, "rows": rows}]
+            if decl.startswith("attribute::"):
+                sheets.append({"name": "settings", "header": [decl], "rows": [["http://example.com/foo"]]})
+            jobs.append({"wb": {"sheets": sheets}, "fmt": "dict", "parts": ("c01",), "tag": {"scoped_declaration": decl, "use": use, "use_row": row}})
     for ch in TEXT_CHANNELS:
         for cls, text in TEXT_TOKENS.items():
             jobs.append({"wb": text_form(ch, text), "fmt": "dict", "parts": ("c01",), "tag": {"text_channel": ch, "token": cls}})
@@ -166,6 +179,12 @@ def run(rep):
     nf = 2500 if rep.tier == "quick" else 40000
     outs += [o for o in conv.map_cases(_fuzz_doc, [{"seed": rep.seed, "idx": i} for i in range(nf)], chunksize=32)]
     rep.bounds["forms"] = {"hostile": len(strs), "decorated_structures": len(picked), "name_matrix": len(NAME_CHANNELS) * len(NAME_TOKENS), "illegal_char_matrix": len(TEXT_CHANNELS) * len(TEXT_TOKENS), "fuzz": nf, "suite_corpus": len(sj)}
+    # vacuity: the one-channel family must really convert (it once did not: every excluded channel was left empty and the form was refused)
+    fam = [o for o in outs if isinstance(o.get("job"), dict) and o["job"].get("only")]
+    fam_ok = sum(1 for o in fam if o.get("status") == "ok")
+    rep.bounds["one_channel_family"] = {"jobs": len(fam), "converted": fam_ok}
+    if fam and fam_ok * 2 < len(fam) and not rep.violations:
+        raise tlc.MachineryError(f"vacuity: only {fam_ok} of {len(fam)} one-channel hostile forms convert")
     sub, acc, rejected = _xml.validate_docs(rep, PROP, outs, "all form families, compact and pretty")
     for o, clause in rejected:
         tag = o["job"].get("tag") or {}
